@@ -214,6 +214,8 @@ func qAtomText(a *qAtom) string {
 		return `cdata:"(?P<v>[A-Z]+)"`
 	case "fteq":
 		return fmt.Sprintf(`ftime:"%s"`, qTime(a.N).Format("2006-01-02 150405"))
+	case "hostself":
+		return fmt.Sprintf("chost:@shost@/%d", a.Bits)
 	case "protoself":
 		return "protocol:@protocol@"
 	case "dur": // the stream lasts at least / less than N hours (stream times are whole hours: thresholds in between)
@@ -309,6 +311,16 @@ func qNormalForm(q *query.Query) (map[string]any, string) {
 				}
 				conj = append(conj, qCond{"kind": "flag", "value": int(cc.Value & cc.Mask)})
 			case *query.HostCondition:
+				if len(cc.HostConditionSources) == 2 && cc.HostConditionSources[0].SubQuery == "" && cc.HostConditionSources[1].SubQuery == "" &&
+					cc.HostConditionSources[0].Type != cc.HostConditionSources[1].Type && len(cc.Host) == 0 {
+					// the two hosts of the stream itself compared under a mask
+					bits, ok := qMaskBits(cc.Mask4)
+					if !ok {
+						return nil, "unsupported host mask"
+					}
+					conj = append(conj, qCond{"kind": "host2", "bits": bits, "inv": cc.Invert})
+					continue
+				}
 				if len(cc.HostConditionSources) != 1 || cc.HostConditionSources[0].SubQuery != "" {
 					return nil, "unsupported host condition"
 				}
